@@ -33,3 +33,16 @@ func runC14(r *Run) {
 	}
 	queueIteratorRule(r, "R14")
 }
+
+// ruleBusConformance: the bus and queue operations equal their reference model (shared with C07/R07.15).
+func ruleBusConformance(r *Run, rule string) {
+	for _, m := range []string{"Flush", "Get", "CanAdd", "Add", "IsEmpty", "Clean"} {
+		conform(r, rule, "proc/comp", "SimpleBus", m, "comp_bus", nil)
+	}
+	for _, m := range []string{"Clean", "Add", "Get", "Pick", "CanAdd", "IsEmpty", "Connect"} {
+		conform(r, rule, "proc/comp", "BufferedBus", m, "comp_bus", nil)
+	}
+	for _, m := range []string{"Push", "Length", "IsFull", "Value", "Remove"} {
+		conform(r, rule, "proc/comp", "Queue", m, "comp_bus", nil)
+	}
+}
